@@ -4,11 +4,16 @@
    emptiness WITHOUT a lock (finding D_RemoveVsCreate: both succeed, the file is
    gone); (b) two stream copies in one directory: with Variant "prefix" the writer
    takes the file lock while holding the directory lock (deadlock, fixed); with
-   "current" it does not.  Scenario selects the thread programs. *)
+   "current" it does not; (c) a stream copy into a NEW file against ReadFile of that
+   file: with Variant "unlockednew" the new, still empty node is added to the directory
+   before its data lock is taken and the reader can see it empty (fixed); with "current"
+   a new node is locked before it becomes visible.  Scenario selects the thread programs. *)
 EXTENDS Naturals, Sequences, FiniteSets, TLC
-CONSTANTS Scenario,  \* "wf_rm" | "sc_sc"
+CONSTANTS Scenario,  \* "wf_rm" | "sc_sc" | "sc_rd"
           Variant    \* "prefix": Writer takes the file lock while holding the directory lock
+                     \* "unlockednew": directory lock released first, but a NEW file is visible before it is locked
 Prog == IF Scenario = "wf_rm" THEN (1 :> [op |-> "wf", a |-> "x", b |-> "v1"] @@ 2 :> [op |-> "rm", a |-> "", b |-> ""])
+        ELSE IF Scenario = "sc_rd" THEN (1 :> [op |-> "sc", a |-> "f", b |-> "n"] @@ 2 :> [op |-> "rd", a |-> "n", b |-> ""])
         ELSE (1 :> [op |-> "sc", a |-> "f", b |-> "g"] @@ 2 :> [op |-> "sc", a |-> "h", b |-> "f"])
 InitFiles == IF Scenario = "wf_rm" THEN {} ELSE {"f", "h"}
 Threads == DOMAIN Prog
@@ -74,7 +79,8 @@ Sc5(t) == /\ pc[t] = "sc5"
              IF b \in DOMAIN ent[d]
                THEN /\ loc' = [loc EXCEPT ![t].g = ent[d][b]] /\ UNCHANGED <<ent, data, dmu, nobj>>
                ELSE /\ ent' = [ent EXCEPT ![d] = Ext(@, b, nobj)] /\ data' = Ext(data, nobj, "empty")
-                    /\ dmu' = Ext(dmu, nobj, 0) /\ nobj' = nobj + 1 /\ loc' = [loc EXCEPT ![t].g = nobj]
+                    /\ dmu' = Ext(dmu, nobj, IF Variant = "current" THEN t ELSE 0)      \* current: locked at birth
+                    /\ nobj' = nobj + 1 /\ loc' = [loc EXCEPT ![t].g = nobj]
           /\ Goto(t, IF Variant = "prefix" THEN "sc6p" ELSE "sc6u") /\ UNCHANGED <<rootD, outer, res>>
 \* prefix: file lock taken while the directory lock is still held
 Sc6p(t) == /\ pc[t] = "sc6p" /\ dmu[loc[t].g] = 0 /\ dmu' = [dmu EXCEPT ![loc[t].g] = t]
@@ -83,12 +89,19 @@ Sc6p(t) == /\ pc[t] = "sc6p" /\ dmu[loc[t].g] = 0 /\ dmu' = [dmu EXCEPT ![loc[t]
 \* current: directory lock released first
 Sc6u(t) == /\ pc[t] = "sc6u" /\ outer' = [outer EXCEPT ![loc[t].dir] = 0] /\ Goto(t, "sc6l")
            /\ UNCHANGED <<rootD, ent, data, dmu, nobj, loc, res>>
-Sc6l(t) == /\ pc[t] = "sc6l" /\ dmu[loc[t].g] = 0 /\ dmu' = [dmu EXCEPT ![loc[t].g] = t] /\ Goto(t, "sc7")
+Sc6l(t) == /\ pc[t] = "sc6l" /\ dmu[loc[t].g] \in {0, t} /\ dmu' = [dmu EXCEPT ![loc[t].g] = t] /\ Goto(t, "sc7")
            /\ UNCHANGED <<rootD, ent, data, outer, nobj, loc, res>>
 Sc7(t) == /\ pc[t] = "sc7" /\ data' = [data EXCEPT ![loc[t].g] = data[loc[t].f]]
           /\ dmu' = [dmu EXCEPT ![loc[t].g] = 0, ![loc[t].f] = 0] /\ Fin(t, "ok")
           /\ UNCHANGED <<rootD, ent, outer, nobj, loc>>
-Step(t) == Wf1(t) \/ Wf2(t) \/ Wf3(t) \/ Wf4(t) \/ Wf5(t) \/ Rm1(t) \/ Rm2(t) \/ Rm3(t)
+\* ---------------- ReadFile("d/a"): lookup under the index mutexes, then the file's read lock
+Rd1(t) == /\ pc[t] = "rd1"
+          /\ IF rootD = 0 \/ Prog[t].a \notin DOMAIN ent[rootD] THEN Fin(t, "err") /\ UNCHANGED loc
+             ELSE loc' = [loc EXCEPT ![t].f = ent[rootD][Prog[t].a]] /\ Goto(t, "rd2") /\ UNCHANGED res
+          /\ UNCHANGED <<rootD, ent, data, outer, dmu, nobj>>
+Rd2(t) == /\ pc[t] = "rd2" /\ dmu[loc[t].f] = 0 /\ Fin(t, data[loc[t].f])
+          /\ UNCHANGED <<rootD, ent, data, outer, dmu, nobj, loc>>
+Step(t) == Rd1(t) \/ Rd2(t) \/ Wf1(t) \/ Wf2(t) \/ Wf3(t) \/ Wf4(t) \/ Wf5(t) \/ Rm1(t) \/ Rm2(t) \/ Rm3(t)
            \/ Sc1(t) \/ Sc2(t) \/ Sc3(t) \/ Sc4(t) \/ Sc5(t) \/ Sc6p(t) \/ Sc6u(t) \/ Sc6l(t) \/ Sc7(t)
 AllDone == \A t \in Threads : pc[t] = "end"
 Next == (\E t \in Threads : Step(t)) \/ (AllDone /\ UNCHANGED vars)
@@ -98,4 +111,6 @@ Spec == Init /\ [][Next]_vars
 NoLostWrite == AllDone =>
    \A w \in Threads : (Prog[w].op = "wf" /\ res[w] = "ok" /\ \E r \in Threads : Prog[r].op = "rm" /\ res[r] = "ok")
         => (rootD # 0 /\ Prog[w].a \in DOMAIN ent[rootD])
+\* a reader sees a complete written value (or no file), never the empty node a writer has just created
+NoEmptyRead == \A t \in Threads : res[t] # "empty"
 ====
